@@ -5,6 +5,9 @@
    writers received. *)
 From ReqV Require Export Lib.Bytes Model.Dump Model.DumpReader Model.DumpStack.
 
+(* compact rendering of bulk data in case files: k copies of a pattern *)
+Definition brep (k : nat) (p : bytes) : bytes := concat (repeat p k).
+
 (* a body reader that replays the recorded Read results *)
 Definition script_reader : rfn (list (bytes * rstat)) :=
   fun s _ => match s with
